@@ -282,3 +282,90 @@ pub fn run_c10(a: &Args) {
 }
 
 pub fn _use(_: Echo) {}
+
+// ------------------------------------------------------------------------------------------ C07
+#[derive(Clone, Copy, Debug, PartialEq)]
+enum EchoPolicy { Prompt, Delayed(u64), Late, Never, WrongId, Duplicate }
+
+pub fn run_c07(a: &Args) {
+    use crate::conn::decode::CbPacket as P;
+    let mut rng = Rng::new(a.seed);
+    let mut cases = vec![];
+    let max_periods = if a.thorough { 40 } else { 6 };
+    for _n in 0..a.cases {
+        let mut plan = gen_plan(&mut rng);
+        plan.intent = *rng.pick(&[2, 3]);
+        let secret = if rng.chance(1, 2) { Some(b"s".to_vec()) } else { None };
+        plan.session_cookie = None;
+        let mut v = gen_verdicts(&mut rng, &plan);
+        v.auth = Ok(gen_profile(&mut rng, &plan.claimed_name, plan.claimed_uuid));
+        let nt = v.targets.len();
+        v.discover = Ok((0..nt).collect()); v.filter = Ok((0..nt).collect());
+        v.select = if nt > 0 && rng.chance(3, 4) { Ok(Some(rng.below(nt as u64) as usize)) } else { Ok(None) };
+        v.loc_fail = false;
+        // timeline (ms since the connection was created)
+        let lat = |rng: &mut Rng| *rng.pick(&[0u64, 0, 3_000, 17_000, 33_000, 70_000]).min(&(16_000 * max_periods as u64 / 2));
+        let tci = *rng.pick(&[50u64, 5_000, 20_000, 40_000]).min(&(16_000 * (max_periods as u64 - 1)));
+        let (l1, l2, l3) = (lat(&mut rng), lat(&mut rng), lat(&mut rng));
+        let done = [tci + 100 + l1 + 200, tci + 100 + l1 + 200 + l2 + 300, tci + 100 + l1 + 200 + l2 + 300 + l3 + 400];
+        let end = done[2] + 500;
+        let nticks = (end / 16_000) as usize;
+        let bad_at = if rng.chance(2, 5) && nticks > 0 { Some(rng.below(nticks as u64) as usize) } else { None };
+        let bad_kind = *rng.pick(&[EchoPolicy::Late, EchoPolicy::Never, EchoPolicy::WrongId]);
+        let mut events: Vec<(u64, Step)> = vec![(tci + 100, Step::Frame(b::client_info(plan.locale.as_bytes())))];
+        for d in done { events.push((d, Step::AdapterDone)); }
+        let mut policies = vec![];
+        for j in 0..nticks {
+            let t = 16_000 * (j as u64 + 1);
+            let pol = if Some(j) == bad_at { bad_kind } else { *rng.pick(&[EchoPolicy::Prompt, EchoPolicy::Prompt, EchoPolicy::Delayed(8_000), EchoPolicy::Delayed(15_700), EchoPolicy::Duplicate]) };
+            policies.push(pol);
+            match pol {
+                EchoPolicy::Prompt => events.push((t + 150, Step::KeepAlive(Echo::Nth(j)))),
+                EchoPolicy::Delayed(d) => events.push((t + d, Step::KeepAlive(Echo::Nth(j)))),
+                EchoPolicy::Late => events.push((t + 16_150, Step::KeepAlive(Echo::Nth(j)))),
+                EchoPolicy::Never => {}
+                EchoPolicy::WrongId => events.push((t + 150, Step::KeepAlive(Echo::Wrong))),
+                EchoPolicy::Duplicate => { events.push((t + 150, Step::KeepAlive(Echo::Nth(j)))); events.push((t + 700, Step::KeepAlive(Echo::Nth(j)))); }
+            }
+        }
+        if rng.chance(1, 4) { events.push((900, Step::KeepAlive(Echo::Nth(0)))); } // unsolicited, before any Keep Alive
+        events.sort_by_key(|e| e.0);
+        plan.pre_info = vec![]; plan.routing = vec![];
+        let mut steps: Vec<Step> = render(&plan, secret.is_some());
+        steps.pop(); // the Client Information frame is scheduled on the timeline
+        let mut now = 0u64;
+        for (t, st) in events { if t > now { steps.push(Step::Wait(t - now)); now = t; } steps.push(st); }
+        steps.push(Step::Wait(400));
+        let sc = scenario(&mut rng, &plan, secret.clone(), steps, v);
+        let o = exec(&sc);
+        // ---- oracle on virtual timestamps
+        let mut why = vec![];
+        let pk: Vec<(&P, u64)> = o.events.iter().filter_map(|e| if let crate::conn::Event::Send(p) = e { Some(p) } else { None }).zip(o.packet_ms.iter().copied()).collect();
+        let t_success = pk.iter().find(|(p, _)| matches!(p, P::LoginSuccess { .. })).map(|x| x.1);
+        let kas: Vec<u64> = pk.iter().filter(|(p, _)| matches!(p, P::KeepAlive(_))).map(|x| x.1).collect();
+        if let (Some(ts), Some(first)) = (t_success, kas.first()) { if *first > ts + 16_100 { why.push(format!("first Keep Alive {} ms after entering the configuration phase", first - ts)); } }
+        for w in kas.windows(2) { if w[1] - w[0] > 16_100 || w[1] - w[0] < 15_900 { why.push(format!("Keep Alives {} ms apart", w[1] - w[0])); } }
+        // K2: a second Keep Alive only after the first was echoed in time
+        for j in 0..kas.len().saturating_sub(1) { if !matches!(policies.get(j), Some(EchoPolicy::Prompt | EchoPolicy::Delayed(_) | EchoPolicy::Duplicate)) { why.push(format!("Keep Alive #{} sent although #{} was not echoed", j + 2, j + 1)); } }
+        // expected end of the run
+        let timeout_at = bad_at.map(|j| 16_000 * (j as u64 + 2)).filter(|t| *t < done[2]);
+        let last = pk.last();
+        match timeout_at {
+            Some(t) => {
+                if o.result != "err:missed-keep-alive" { why.push(format!("Keep Alive #{} left unechoed ({:?}) until the next was due, yet the run ended with {}", bad_at.unwrap() + 1, bad_kind, o.result)); }
+                match last { Some((P::Disconnect(text), at)) => { if *at > t + 100 || *at + 100 < t { why.push(format!("timeout Disconnect at {at} ms, due at {t} ms")); } if text != b"disconnect_timeout|".iter().chain(plan.locale.as_bytes()).copied().collect::<Vec<u8>>().as_slice() && tci + 100 < t { why.push("timeout Disconnect is not the localized timeout message".into()); } }
+                    other => why.push(format!("no timeout Disconnect (last packet {:?})", other.map(|x| x.0.canonical().chars().take(30).collect::<String>()))) }
+            }
+            None => {
+                if o.result == "err:missed-keep-alive" { why.push("client echoed every Keep Alive before the next was due but was dropped for inactivity".into()); }
+                match (&sc.verdicts.select, last) {
+                    (Ok(Some(i)), Some((P::Transfer { host, port }, at))) => { let t = &sc.verdicts.targets[*i]; if host != t.address.ip().to_string().as_bytes() || *port != i32::from(t.address.port()) { why.push("wrong Transfer after slow routing".into()); } if *at > done[2] + 200 { why.push(format!("Transfer {} ms after routing completed", at - done[2])); } }
+                    (Ok(Some(_)), other) => why.push(format!("routing completed with a choice but the run did not end with its Transfer: {:?} / {}", other.map(|x| x.0.canonical().chars().take(30).collect::<String>()), o.result)),
+                    _ => {}
+                }
+            }
+        }
+        cases.push(case_of(&o, why, format!("lat{}:{}:{}", ((l1 + l2 + l3) / 16_000).min(9), match (bad_at, timeout_at) { (None, _) => "all-echoed".to_string(), (Some(_), Some(_)) => format!("{bad_kind:?}-timeout"), (Some(_), None) => format!("{bad_kind:?}-routed-first") }, reach(&o))));
+    }
+    finish("c07", a, cases);
+}
